@@ -24,6 +24,9 @@ def run(ses):
     from pyvc.harness import run_cases
 
     run_cases(ses, "props.c19", "case_load", [("IU2", "slice_sym", "slice_none")])
+    from props import arraychain as _ac
+
+    _ac.resolve_limits(ses)
     ses.trust(*TRUST[:4], "induction schema: a closed form satisfying X(0) = init and X(j+1) - X(j) = step(j) equals the running "
                           "sum / file position of the loop (checked: initialisation and preservation)")
     ses.assume("math.ceil(n / rpc) is the exact integer ceiling: true for n, rpc < 2**53 (float division of ints is correctly "
